@@ -43,7 +43,7 @@ import sympy.printing
 from sympy.codegen.rewriting import ReplaceOptim, optimize
 from sympy.core.mul import _keep_coeff
 from sympy.logic.boolalg import BooleanTrue
-from sympy.printing.precedence import precedence
+from sympy.printing.precedence import PRECEDENCE, precedence
 
 
 class Printer(sympy.printing.printer.Printer):
@@ -323,6 +323,12 @@ class Printer(sympy.printing.printer.Printer):
             assert item.base in b, "item.base should be kept in b for powers"
             b_str[b.index(item.base)] = \
                 '(' + b_str[b.index(item.base)] + ')'
+
+        # A single denominator is the right-hand operand of '/', which associates to the left: print it as the
+        # operand of a power, so that a denominator that is itself printed as a product or quotient (a rational, a
+        # reciprocal 1 / x) gets brackets
+        if len(b) == 1 and not pow_brackets:
+            b_str[0] = self._bracket(b[0], PRECEDENCE['Pow'])
 
         # Combine numerator and denomenator and return
         a_str = sign + ' * '.join(a_str)
